@@ -145,6 +145,73 @@ theorem C13_exit_progress (s : State) (hr : Reachable s) (p : Nat) (hp : s.stat 
     simp only [step, hp, true_and]
     rw [if_pos this]; rfl
 
+/-! ## whole operations (the atomic-action lists the driver uses for them) -/
+
+/-- creating an object (`manager.<typeid>(…)`, or a hosted method returning `managed(new object)`):
+    entry + server-side proxy, reply pickled, temporary dropped, client un-pickles.  Net effect from
+    *any* state: exactly one reference, the caller's; count 1; a memory block's shm linked. -/
+theorem C13_create_returns_one_reference (s : State) (p i : Nat) (k : Kind)
+    (hi : s.hosted i = false) (hp : s.stat p = .running) :
+    ∃ s', Core.run step s [.create k i, .pickle .temp i, .drop .temp i, .unpickle (.client p) i, .drop .rebuild i]
+        = some s' ∧
+      s'.refs = (.client p, i) :: s.refs ∧ s'.rc i = 1 ∧ (∀ j, j ≠ i → s'.rc j = s.rc j) ∧
+      s'.hosted i = true ∧ s'.kind i = k ∧ s'.shm i = decide (k = .mem) := by
+  let s1 : State := { s with rc := fun j => if j = i then 1 else s.rc j
+                             hosted := fun j => if j = i then true else s.hosted j
+                             kind := fun j => if j = i then k else s.kind j
+                             shm := fun j => if j = i then decide (k = .mem) else s.shm j
+                             refs := (.temp, i) :: s.refs }
+  let s2 : State := { incref s1 i with refs := (.transit, i) :: (.temp, i) :: s.refs }
+  let s3 : State := decref { s2 with refs := (.transit, i) :: s.refs } i
+  let s4 : State := { incref s3 i with refs := (.client p, i) :: (.rebuild, i) :: s.refs }
+  let s5 : State := decref { s4 with refs := (.client p, i) :: s.refs } i
+  have h1 : step s (.create k i) = some s1 := by simp [step, hi, s1]
+  have h2 : step s1 (.pickle .temp i) = some s2 := by simp [step, canAct, s1, s2]
+  have h3 : step s2 (.drop .temp i) = some s3 := by simp [step, incref, s1, s2, s3]
+  have h3' : s3.rc i = 1 ∧ s3.hosted i = true ∧ s3.refs = (.transit, i) :: s.refs ∧ s3.stat = s.stat := by
+    simp [s3, s2, s1, decref, incref]
+  have h4 : step s3 (.unpickle (.client p) i) = some s4 := by
+    simp [step, dstOk, h3'.2.1, h3'.2.2.1, h3'.2.2.2, hp, s4]
+  have h5 : step s4 (.drop .rebuild i) = some s5 := by
+    simp [step, incref, s4, s5, h3'.1]
+  refine ⟨s5, ?_, ?_⟩
+  · simp [Core.run_cons, h1, h2, h3, h4, h5]
+  · simp [s5, s4, s3, s2, s1, decref, incref]
+    intro j hj; simp [hj]
+
+/-- passing a proxy to another process (`Process(args=(proxy,))`, a queue, a pipe): `__reduce__` in
+    `p`, `RebuildProxy` in `q` — ordinary, or while the spawned child `q` bootstraps (the same in the
+    repaired code).  Net effect: exactly one more reference, held by `q`; count + 1; nothing else. -/
+theorem C13_pass_to_process (s : State) (hr : Reachable s) (p q i : Nat)
+    (hm : (Holder.client p, i) ∈ s.refs) (hp : s.stat p = .running) (hq : s.stat q = .running) :
+    ∃ s', Core.run step s [.pickle (.client p) i, .unpickle (.client q) i, .drop .rebuild i] = some s' ∧
+      s'.refs = (.client q, i) :: s.refs ∧ s'.rc i = s.rc i + 1 ∧ (∀ j, j ≠ i → s'.rc j = s.rc j) ∧
+      s'.hosted = s.hosted ∧ s'.shm = s.shm ∧ s'.stat = s.stat := by
+  have hh := (C13_alive s hr _ i hm).1
+  let s1 : State := { incref s i with refs := (.transit, i) :: s.refs }
+  let s2 : State := { incref s1 i with refs := (.client q, i) :: (.rebuild, i) :: s.refs }
+  let s3 : State := decref { s2 with refs := (.client q, i) :: s.refs } i
+  have h1 : step s (.pickle (.client p) i) = some s1 := by
+    simp [step, hm, hp, hh, canAct, s1]
+  have h2 : step s1 (.unpickle (.client q) i) = some s2 := by
+    simp [step, dstOk, hq, hh, incref, s1, s2]
+  have h3 : step s2 (.drop .rebuild i) = some s3 := by
+    simp [step, incref, s1, s2, s3]
+  refine ⟨s3, ?_, ?_⟩
+  · simp [Core.run_cons, h1, h2, h3]
+  · have hrc : ¬ (s.rc i + 1 + 1 ≤ 1) := by omega
+    simp [s3, s2, s1, decref, incref, hrc]
+    intro j hj; simp [hj]
+
+/-- deleting the proxy that holds the last count destroys the object and unlinks its shared memory
+    in that very step -/
+theorem C13_delete_last_reference (s : State) (p i : Nat)
+    (hm : (Holder.client p, i) ∈ s.refs) (hp : s.stat p ≠ .exited) (h1 : s.rc i = 1) :
+    ∃ s', step s (.drop (.client p) i) = some s' ∧ s'.hosted i = false ∧ s'.shm i = false ∧ s'.rc i = 0 := by
+  refine ⟨decref { s with refs := s.refs.erase (.client p, i) } i, ?_, ?_⟩
+  · simp [step, hm, h1, Holder.isClient, canAct, hp]
+  · simp [decref, h1]
+
 /-! ## non-vacuity
 
 Two clients (0 and 1).  Client 0 creates a list (ident 0) and a memory block (ident 1), stores the
